@@ -6,5 +6,7 @@ patch=$1; pid=$2; tier=${3:-quick}
 [ -d /tmp/mut ] || git -C /repo worktree add --detach /tmp/mut HEAD >/dev/null 2>&1
 git -C /tmp/mut checkout -q --detach $(git -C /repo rev-parse HEAD); git -C /tmp/mut checkout -- .; git -C /tmp/mut clean -qfd
 git -C /tmp/mut apply $patch || { echo "PATCH DOES NOT APPLY"; exit 3; }
-cd /verif && VERIF_REPO=/tmp/mut VERIF_NO_EVIDENCE=1 VERIF_SCRATCH_REPLAY=${VERIF_SCRATCH_REPLAY-1} ./check $pid --tier $tier | grep -E "VIOLATION|UNDECIDED|KNOWN|OK|FAILED|NOTE" | sed 's/replay=[^ ]* //' | cut -c1-330
+cd /verif && VERIF_REPO=/tmp/mut VERIF_NO_EVIDENCE=1 VERIF_SCRATCH_REPLAY=${VERIF_SCRATCH_REPLAY-1} ./check $pid --tier $tier > /tmp/seed_scratch.out 2>&1; rc=$?
+if [ -n "$SEED_SCRATCH_RAW" ]; then grep -E "VIOLATION|UNDECIDED|KNOWN|NOTE" /tmp/seed_scratch.out; else grep -E "VIOLATION|UNDECIDED|KNOWN|OK|FAILED|NOTE" /tmp/seed_scratch.out | sed 's/replay=[^ ]* //' | cut -c1-330; fi
 git -C /tmp/mut checkout -- .; git -C /tmp/mut clean -qfd
+echo "seed=$(basename $(dirname $patch)) check=$pid rc=$rc"
